@@ -13,6 +13,9 @@ def collections_for(L):
     for r in range(1, L + 1):
         if L % r == 0:
             c = L // r
+            if r > 1 and c > 1 and L <= 16:
+                # the same wells in row-major order as a flat array, asked for just before the 2-D block
+                out.append((f"flatC:{r}x{c}", [well_id(i, j) for i in range(r) for j in range(c)]))
             out.append((f"array2d:{r}x{c}", [[well_id(i, j) for j in range(c)] for i in range(r)]))
             if 1 < r and L <= 12:
                 out.append((f"nested:{r}x{c}", [[well_id(i, j) for j in range(c)] for i in range(r)]))  # e.g. trough.wells.tolist()
@@ -20,6 +23,10 @@ def collections_for(L):
         # ndarray subclasses: a numpy matrix (always 2-D) and masked arrays (the mask is dropped, like numpy.array does)
         out.append(("matrix", [flat]))
         out.append(("masked", flat))
+    if 2 <= L <= 6:
+        # IDs of different length (columns 99 / 100 of a very wide labware)
+        out.append(("wide", [well_id(i % 2, 98 + i // 2) for i in range(L)]))
+        out.append(("wide-array", [well_id(0, 98 + i) for i in range(L)]))
     if L >= 2:
         # a well may be listed several times (two tips into the same compartment)
         out.append(("repeats", [flat[i // 2] for i in range(L)]))
@@ -70,7 +77,7 @@ class Harness(cm.BaseB):
                 return f"empty:raised:{type(e).__name__}", None, []
             return "empty:ok", None, [("C19/empty-collection-accepted", f"get_trough_wells({n}, empty {kind}) -> {r!r}")]
         nested = dict(collections_for(L))[kind]
-        if kind in ("list", "repeats") or kind.startswith("nested"):
+        if kind in ("list", "repeats", "wide") or kind.startswith("nested"):
             arg = [list(x) if isinstance(x, list) else x for x in nested]
         elif kind == "tuple":
             arg = tuple(nested)
